@@ -350,12 +350,20 @@ def main(argv=None):
                     if ob.kind == "ch" and f.get("witness") is not None and f.get("witness_param") in (None, p):
                         tasks.append(Task(ob, src, prop, tier_name, p, "witness", finding=f))
 
+    # a listed finding must point at an obligation that exists (a renamed harness file would otherwise silently drop its class)
+    stale = []
+    if not a.only:
+        present = {"%s.%s" % (os.path.basename(t.src)[:-3], t.ob.fn) for t in tasks}
+        stale = [f for f in known["findings"] if f["property"] == prop and f["harness"] not in present]
+
     # long obligations first
     tasks.sort(key=lambda t: -(t.ob.for_tier(t.ob.timeout, tier_name) or 60) if t.mode == "main" else 0)
     with cf.ThreadPoolExecutor(max_workers=a.jobs) as ex:
         list(ex.map(run_task, tasks))
 
     violations, harness_errors, known_lines = [], [], []
+    for f in stale:
+        harness_errors.append("known finding %s names a harness that does not exist: %s" % (f["id"], f["harness"]))
     obligations = discharged = inconclusive = evaluations = nontrivial = 0
     solver_wall = 0.0
     samples = []
